@@ -181,6 +181,14 @@ class Gen:
         if o['calls'] and r.random() < 0.6:
             for k in range(r.randrange(1, 3)):
                 self.function('f%d' % k)
+        self.counter_fn = None
+        if o['calls'] and o.get('bait') and r.random() < 0.4:
+            # a function with a side effect whose last instruction is not a load of its result: only
+            # used by the baits below, as a whole condition operand or a whole right-hand side
+            p.globals.append(('unsigned char', 'g', None, None, ''))
+            p.funcs.append(dict(name='cnt', ret='unsigned char', params=[], inline=self.o['inline'] and r.random() < 0.3,
+                                body=[('return', ('inc', 'x++', ('var', 'g')))]))
+            self.counter_fn = 'cnt'
         self.free_counters = list(self.counters) + ['X', 'Y']
         self.in_loop = 0
         head = []
@@ -437,7 +445,9 @@ class Gen:
             vals = r.sample(range(0, 6), r.randrange(1, 4))
             for v in vals:
                 body = self.stmts(r.randrange(1, 3), depth + 1)
-                if r.random() < 0.8:
+                if getattr(self, 'cont_ok', None) and self.cont_ok[-1] and r.random() < 0.3:
+                    body.append(('continue',))
+                elif r.random() < 0.8:
                     body.append(('break',))
                 cases.append(([v], body))
             dflt = self.stmts(1, depth + 1) if r.random() < 0.5 else None
@@ -455,8 +465,13 @@ class Gen:
         self.in_loop += 1
         n = r.randrange(1, 6)
         cv = ('var', ctr)
-        body = ('block', self.stmts(r.randrange(1, 3), depth + 1))
         kind = r.randrange(5)
+        # continue is only generated where the loop's update still runs after it (for loops)
+        self.cont_ok = getattr(self, 'cont_ok', []) + [kind in (0, 1)]
+        body = ('block', self.stmts(r.randrange(1, 3), depth + 1))
+        if self.cont_ok[-1] and r.random() < 0.2:
+            body[1].insert(r.randrange(len(body[1]) + 1), ('if', self.cond(depth + 1), ('continue',), None))
+        self.cont_ok = self.cont_ok[:-1]
         if kind == 0:
             st = ('for', ('asg', '=', cv, ('num', 0)), ('bin', r.choice(['!=', '<']), cv, ('num', n)),
                   ('inc', r.choice(['x++', '++x']), cv), body)
@@ -510,7 +525,55 @@ class Gen:
             if r.random() < 0.5:
                 return [asg(V(pn), ('addr', v[1])), asg(tgt, v), asg(('deref', pn), N(r.randrange(1, 9))), asg(tgt, v)]
             return [asg(V(pn), ('addr', v[1])), asg(tgt, ('deref', pn)), asg(v, r.choice([N(r.randrange(1, 9)), V('X')])), asg(tgt, ('deref', pn))]
-        k = r.randrange(18)
+        k = r.randrange(23)
+        if k == 22 and self.arrays:
+            # an update of one array element, then a zero test of ANOTHER element of the same array
+            # (same symbol, other offset): the flags of the update do not describe it
+            a = r.choice(self.arrays)
+            c1, c2 = r.sample(range(8), 2)
+            x = ('idx', a, N(c1))
+            upd = r.choice([('expr', ('inc', r.choice(['++x', 'x++', '--x', 'x--']), x)), asg(x, u()), asg(x, N(r.choice([0, 1]))),
+                            ('expr', ('asg', r.choice(['+=', '-=', '&=']), x, N(1)))])
+            y = ('idx', a, r.choice([N(c2), N(c2), V(reg)] if reg else [N(c2)]))
+            tst = r.choice([y, ('bin', '!=', y, N(0)), ('bin', '==', y, N(0)), ('un', '!', y)])
+            return [upd, ('if', tst, ('block', [asg(u(), N(18))]), ('block', [asg(u(), N(19))]))]
+        if k == 22:
+            k = r.randrange(13)
+        if k == 21 and self.shorts:
+            # ++/-- of a 16-bit variable as an operand: the side effect happens once whichever bytes of
+            # the operand the operator evaluates (a shift by 8 or more only needs the high byte)
+            sv = r.choice(self.shorts)
+            others = [x for x in self.shorts if x != sv]
+            inc = ('inc', r.choice(['++x', '--x', '++x', 'x++', 'x--']), V(sv))
+            e = r.choice([('bin', r.choice(['>>', '<<']), inc, N(r.choice([1, 7, 8, 8, 9, 15]))),
+                          ('bin', r.choice(['+', '-', '&', '|']), inc, N(r.choice([1, 255, 256, 0x1234]))), inc])
+            tgt = V(r.choice(others)) if others and r.random() < 0.5 else u()
+            return [asg(tgt, e)]
+        if k == 21:
+            k = r.randrange(13)
+        if k == 20 and self.counter_fn and not getattr(self, '_fn_callable', None):
+            # the result of a function with a side effect: tested against 0 (the flags the callee left
+            # describe something else), or widened to 16 bits (the call must happen once)
+            call = ('call', self.counter_fn, [])
+            if self.shorts and r.random() < 0.4:
+                return [asg(V(r.choice(self.shorts)), call)]
+            return [('if', r.choice([('bin', '!=', call, N(0)), ('bin', '==', call, N(0)), call]),
+                     ('block', [asg(u(), N(13))]), ('block', [asg(u(), N(14))]))]
+        if k == 19 and reg and self.o['hw']:
+            # a register assignment, an explicit load()/store() (changes the flags behind the
+            # generator's back), a zero test of the register
+            mid = r.choice([('load', N(0)), ('load', u()), ('store', u())])
+            return [asg(V(reg), u()), mid, ('if', r.choice([V(reg), ('bin', '!=', V(reg), N(0))]), ('block', [asg(u(), N(15))]), None)]
+        if k >= 18 and reg:
+            # the same constant loaded twice into a register with something in between which sets
+            # N and Z from another value, then a zero test of the register
+            other = 'Y' if reg == 'X' else 'X'
+            kk = r.choice([0, 1, 5, 200])
+            mid = asg(u(), r.choice([N(0), N(1), ('bin', '+', V(other), N(1)), ('bin', '&', u(), N(1)), V(other)]))
+            return [asg(V(reg), N(kk)), mid, asg(V(reg), N(kk)),
+                    ('if', r.choice([V(reg), ('bin', '==', V(reg), N(0))]), ('block', [asg(u(), N(16))]), ('block', [asg(u(), N(17))]))]
+        if k >= 18:
+            k = r.randrange(13)
         if k == 17 and reg:
             # a constant comparison the optimiser can decide, then a change of the register as the very
             # first thing of the body, then the constant again
